@@ -1351,6 +1351,16 @@ MUTANTS = [
         util.debug("Main resource tracker is running")""")),
     M("spawn-env-overlay-drops-empty-values", ["C18", "C20"], ["R-SPAWN-FRESH"],
       (PR, """        self.env = {} if env is None else env""", """        self.env = {key: value for key, value in dict(env or {}).items() if value}""")),
+    # D14 (fixed in /repo): the resize goes on to top up a pool that broke while it was waiting
+    M("resize-topup-into-broken-pool-D14", ["C09", "C10"], ["R-RESIZE"],
+      (RE, """            if self._flags.broken:
+                # A worker died while the pool was being resized: the executor
+                # manager thread kills all the workers and closes the queues,
+                # there is nothing left to adjust. The next call to
+                # get_reusable_executor creates a new executor.
+                return
+
+            self._adjust_process_count()""", """            self._adjust_process_count()""")),
     # ------------------------------------------------------- R-SCN-* (polarity)
     M("scn-wakeup-inverted", ["C01", "C02", "C05"], ["R-SCN-WAKEPRIM"],
       (PE, """    def wakeup(self):
